@@ -533,6 +533,13 @@ static void join(Client *c)
   delete c;
 }
 
+// virtual sleep of a client/main thread: a timed wait that nothing but time can end
+static void vsleep(int ms) { exb_event_wait(nullptr, nullptr, ms); }
+static void wait_for_tx(int n, int max_ms)
+{
+  for (int waited = 0; g_tx.load() < n && waited < max_ms; waited += 25) vsleep(25);
+}
+
 // ---------------------------------------------------------------- programs
 struct Prog {
   const char *name;
@@ -647,6 +654,16 @@ static std::vector<Prog> programs()
                  join(a);
                  wait_all(ch, "L3");
                } });
+  v.push_back({ "L5-second-query-while-first-is-in-a-back-off-round", "c07", 0, 0, 0, 1, [](ares_channel_t *ch) {
+                 // the first query has been re-sent once (its current timeout is doubled); a second query then arrives
+                 // on the same busy socket with an EARLIER deadline than anything the sleeping event thread knows about
+                 q_query(ch, "first.example.com");
+                 wait_for_tx(2, 2000);
+                 vsleep(50);
+                 Client *a = spawn([ch] { q_query(ch, "second.example.com"); });
+                 join(a);
+                 wait_all(ch, "L5");
+               } });
   v.push_back({ "L4-tcp-idle-kept-open-then-silent", "c07", ARES_FLAG_STAYOPEN | ARES_FLAG_USEVC, 1, 0, 1, [](ares_channel_t *ch) {
                  q_query(ch, "warm.example.com");
                  wait_all(ch, "L4 warm-up");
@@ -717,7 +734,11 @@ static void run_program(const Prog &p, int evsys, const unsigned char *prefix, i
   }
   ares_library_cleanup();
   // ---- end-of-execution oracles
-  int64_t budget_us = (int64_t)TIMEOUT_MS * 1000 * TRIES * p.nservers * 2 * 2 + 1000000; // retry budget x2 (doubling) x2 (slack)
+  // retry budget of one query: the sum of the per-attempt timeouts (doubling once per trip through the server list,
+  // no jitter in this harness) plus a small slack for the +1 ms rounding of the event thread per wait
+  int64_t budget_us = 0;
+  for (int i = 0; i < TRIES * p.nservers; i++) budget_us += (int64_t)TIMEOUT_MS * 1000 * (1LL << (i / p.nservers));
+  budget_us += 60000;
   for (int t = 0; t < g_ntoks; t++) {
     if (g_toks[t].count != 1) viol("C11:token:not-exactly-once", fmt("token %d completed %d times over the life of the channel", t, g_toks[t].count.load()));
     else if (g_toks[t].t_done - g_toks[t].t_issue > budget_us)
